@@ -281,8 +281,9 @@ class GuardStates:
 
     LIMIT = 4000
 
-    def __init__(self, cfg: CFG, call_kill: Callable[[Node], Set[str]] = None):
+    def __init__(self, cfg: CFG, call_kill: Callable[[Node], Set[str]] = None, edge_filter: Callable[[Edge], bool] = None):
         self.cfg = cfg
+        self.edge_filter = edge_filter
         self.exprs: Dict[str, ast.expr] = {}
         self._reads: Dict[str, Set[str]] = {}
         self.call_kill = call_kill
@@ -330,6 +331,8 @@ class GuardStates:
                 stores_cache[x] = s
             st = stores_cache[x]
             for e in cfg.succ[x]:
+                if self.edge_filter is not None and not self.edge_filter(e):
+                    continue
                 outs = set()
                 for facts in self.state[x]:
                     # an exc edge leaves before the statement completed: stores may or may not have
@@ -367,5 +370,5 @@ class GuardStates:
         return out
 
 
-def guard_states(cfg: CFG, call_kill=None) -> GuardStates:
-    return GuardStates(cfg, call_kill)
+def guard_states(cfg: CFG, call_kill=None, edge_filter=None) -> GuardStates:
+    return GuardStates(cfg, call_kill, edge_filter)
